@@ -24,7 +24,8 @@ pub enum Op {
 pub const REG_LANGS: [L; 2] = [L::None, L::En];
 pub const RECS: [(usize, &str, usize); 4] = [(1, "alpha beta", 5), (2, "beta", 9), (3, "al", 7), (4, "alpha", 9)];
 pub const LIMITS: [usize; 3] = [0, 1, 10];
-pub const MARKERS: [(&str, &str); 2] = [("[", "]"), ("<", ">")];
+/// index 0 must stay the store default ("[", "]"): the reference model starts there
+pub const MARKERS: [(&str, &str); 3] = [("[", "]"), ("<b>", "</b>"), ("\u{ab}", "\u{bb}")];
 pub const QUERIES: [&str; 4] = ["", "be", "alpha", "al "];
 
 #[derive(Clone, Debug)]
@@ -337,7 +338,7 @@ impl Prop for C20 {
         let mut summary: Vec<(Vec<usize>, u32, u32, usize)> = self.configs.iter().map(|c| (c.0.clone(), c.1, c.2, c.3)).collect();
         summary.dedup();
         vec![Dom::new("registry-bfs", self.configs.len() as u64, 1).budget(self.tier.pick(170, 3000)).note(format!(
-            "one case per (configuration, first operation); configurations (store ids, merged depth, unmerged depth, start state 0 = empty registry / 1 = store 1 preloaded with two records): {:?}; ops: create x2 languages, destroy, add_record x4 (one rating tie), set_limit x3 (0, 1, 10), highlight_with x2, run_search x4 (empty, prefix, whole word, finished word with a trailing space) per id, valid calls only; using_results read for every live id after every operation",
+            "one case per (configuration, first operation); configurations (store ids, merged depth, unmerged depth, start state 0 = empty registry / 1 = store 1 preloaded with two records): {:?}; ops: create x2 languages, destroy, add_record x4 (one rating tie), set_limit x3 (0, 1, 10), highlight_with x3 (default, a longer ASCII pair, a multi-byte pair), run_search x4 (empty, prefix, whole word, finished word with a trailing space) per id, valid calls only; using_results read for every live id after every operation",
             summary
         ))]
     }
